@@ -184,9 +184,9 @@ func ruleN3(c *Ctx) {
 			if !strings.Contains(cond, v+"[:]") {
 				continue
 			}
-			want := fmt.Sprintf("((pf.pend-pf.pstart)==len(%s))&&bytescase.CmpEq(buf[pf.pstart:pf.pend],%s[:])", v, v)
+			want := fmt.Sprintf("((@p.pend - @p.pstart) == len(%s)) && bytescase.CmpEq(@b[@p.pstart:@p.pend], %s[:])", v, v)
 			seen[lit]++
-			c.check(cond == want, "N3", fmt.Sprintf("known-name:%s#%d", lit, seen[lit]), is.Pos(), "the known parameter "+lit+" is recognised by length and case-insensitive comparison of the whole name, nothing else ("+cond+")")
+			c.check(patEq(c.src(is.Cond), want), "N3", fmt.Sprintf("known-name:%s#%d", lit, seen[lit]), is.Pos(), "the known parameter "+lit+" is recognised by length and case-insensitive comparison of the whole name, nothing else ("+cond+")")
 		}
 		return true
 	})
